@@ -1681,15 +1681,18 @@ void auth_handle_component_open(xmpp_conn_t *conn)
     handler_reset_timed(conn, 0);
 
     handler_add(conn, _handle_error, XMPP_NS_STREAMS, "error", NULL, NULL);
-    handler_add(conn, _handle_component_hs_response, NULL, "handshake", NULL,
-                NULL);
-    handler_add_timed(conn, _handle_missing_handshake, HANDSHAKE_TIMEOUT, NULL);
 
     rc = _handle_component_auth(conn);
     if (rc != 0) {
         strophe_error(conn->ctx, "auth", "Component authentication failed.");
         xmpp_disconnect(conn);
+        return;
     }
+
+    /* only wait for the server's answer if a handshake was sent */
+    handler_add(conn, _handle_component_hs_response, NULL, "handshake", NULL,
+                NULL);
+    handler_add_timed(conn, _handle_missing_handshake, HANDSHAKE_TIMEOUT, NULL);
 }
 
 /* Will compute SHA1 and authenticate the component to the server */
